@@ -59,7 +59,7 @@ class Query:
     in_u32() are symbolic.  witnesses: names of WITNESS_AT points that must be reachable (twin run)."""
 
     def __init__(self, name, defs=(), witnesses=(), unwind=2, timeout=900, est_gb=3, hardcap=40,
-                 extra_cbmc=(), sample=None, profile=None):
+                 extra_cbmc=(), sample=None, profile=None, required_sat=()):
         self.name = name
         self.defs = list(defs)
         self.witnesses = list(witnesses)
@@ -69,6 +69,8 @@ class Query:
         self.hardcap = hardcap
         self.extra_cbmc = list(extra_cbmc)
         self.sample = sample
+        self.harness_unwind = 18
+        self.required_sat = list(required_sat)   # witnesses whose UNREACHABILITY is itself a violation (existential claims)
         self.profile = profile      # concrete VIN vectors of this shape: per-loop bounds are learnt from them (then checked)
 
 
@@ -359,6 +361,8 @@ def decide(u, q, defs, log_prefix, hints, note):
             return dict(base, status='inconclusive', why='timeout after %ds' % q.timeout)
         if r['verdict'] is None:
             return dict(base, status='inconclusive', why='cbmc gave no verdict: ' + r.get('error', '')[-600:])
+        if r['verdict'] not in ('SUCCESSFUL', 'FAILED'):
+            return dict(base, status='inconclusive', why='cbmc: VERIFICATION %s (solver error / out of memory)' % r['verdict'])
         fails = [(k, v[0]) for k, v in r['results'].items() if v[1] == 'FAILURE']
         unw = [k for k, _ in fails if '.unwind.' in k]
         wit = sorted(set(d[len('witness: '):] for k, d in fails if d.startswith('witness: ')))
@@ -371,6 +375,17 @@ def decide(u, q, defs, log_prefix, hints, note):
             return dict(base, status='holds')
         rounds += 1
         capped = []
+        # the solver's own counterexamples tell what the path needs: re-profile them concretely (cheap) so that one round
+        # learns every loop along that path, not just the first one that was too small
+        cex = [r['traces'].get(k) for k in unw if r['traces'].get(k)]
+        if cex and q.profile is not None:
+            try:
+                tot = profile_unit(u, q, [d_ for d_ in defs if d_ != '-DWITNESS'], cex[:3], u.dir, unwind=q.hardcap + 2, workers=3)
+                for lid, v in tot.items():
+                    if v + 1 > unwindset.get(lid, q.unwind):
+                        unwindset[lid] = min(v + 1, q.hardcap + 1)
+            except Exception:
+                pass
         for k in unw:
             lid = k.replace('.unwind.', '.')
             cur = unwindset.get(lid, q.unwind)
@@ -387,6 +402,14 @@ def decide(u, q, defs, log_prefix, hints, note):
             return dict(base, status='unbounded', loops=capped, vin=tr, why='loop bound not converging below hard cap %d' % q.hardcap)
         if rounds > 10:
             return dict(base, status='inconclusive', why='loop bounds still growing after %d rounds: %s' % (rounds, unw[:4]))
+
+
+def harness_loops(u, defs):
+    """loop ids of the functions defined in the harness main (reference specification, oracles): these are cheap, so they
+    get a generous bound up front instead of being discovered one unwinding assertion at a time"""
+    cmd = ['cbmc', os.path.join(VERIF, u.main_c), '-I', TOOLS, '-I', u.dir] + u.inc + defs + ['--show-loops']
+    p = subprocess.run(cmd, stdout=subprocess.PIPE, stderr=subprocess.STDOUT, text=True, errors='replace', timeout=120)
+    return re.findall(r'^Loop (\S+):', p.stdout, re.M)
 
 
 def profile_unit(u, q, defs, vins, work, unwind=40, workers=None):
@@ -525,14 +548,19 @@ class Runner:
                 t0 = time.time()
                 tot = profile_unit(u, q, q.defs + kf_defs, q.profile, u.dir, workers=2)
                 hints = {k: v + 1 for k, v in tot.items() if v + 1 > q.unwind}
+                for lid in harness_loops(u, q.defs + kf_defs):
+                    hints[lid] = max(hints.get(lid, 0), q.harness_unwind)
                 note['profile_runs'] = len(q.profile)
                 note['profile_s'] = round(time.time() - t0, 1)
             r = decide(u, q, defs, lp, hints, note)
             r['note'] = note
             return task, r
         results = []
+        # heaviest first, report as they finish
+        tasks.sort(key=lambda t: -t[1].est_gb)
         with concurrent.futures.ThreadPoolExecutor(workers) as ex:
-            for task, r in ex.map(do, tasks):
+            for fut in concurrent.futures.as_completed([ex.submit(do, t) for t in tasks]):
+                task, r = fut.result()
                 results.append((task, r))
                 u, q, wit, _ = task
                 self.say('[%s]   %s/%s: %s  %.0fs %dMB rounds=%d witnesses=%d/%d' % (self.prop, u.name, q.name,
@@ -569,6 +597,9 @@ class Runner:
                 got = set(r.get('witnessed', []))
                 rec['witnesses_confirmed'] = sorted(got & set(q.witnesses))
                 miss = [w for w in q.witnesses if w not in got]
+                for w in [w for w in miss if w in q.required_sat]:
+                    self._unsat_witness(u, q, kf_defs, w, rec)
+                miss = [w for w in miss if w not in q.required_sat]
                 if miss:
                     self.inconclusive.append('VACUOUS: %s/%s cannot reach %s' % (u.name, q.name, miss))
         # 5. known findings: reproduce each witness on the real build
@@ -625,6 +656,33 @@ class Runner:
         else:
             self.inconclusive.append('MODEL-DIVERGENCE: solver counterexample for "%s" (%s/%s VIN=%s) does not reproduce on the native build (rc=%d, %s)' % (
                 desc, u.name, q.name, ','.join(map(str, vin)), rc, (out + err)[-300:]))
+
+    def _unsat_witness(self, u, q, kf_defs, w, rec):
+        """an existential claim ("there are values for which ...") came back UNSAT: confirm on the native build by sampling"""
+        import random
+        exe = self._native(u, q.defs + kf_defs)
+        rnd = random.Random(12345)
+        reached = False
+        tried = 0
+        for i in range(300):
+            vin = [rnd.choice([0, 1, 2, 3, 255, rnd.getrandbits(32), rnd.getrandbits(8)]) for _ in range(24)]
+            rc, out, err = run_native(exe, vin)
+            if rc in (0, 10):
+                tried += 1
+                if ('WITNESS ' + w) in out:
+                    reached = True
+                    break
+        rec.setdefault('counterexamples', []).append({'existential_claim_unsat': w, 'native_samples': tried, 'native_found_witness': reached})
+        if reached:
+            self.inconclusive.append('MODEL-DIVERGENCE: solver says "%s" is impossible but the native build exhibits it' % w)
+            return
+        os.makedirs(os.path.join(VERIF, 'evidence', 'replay'), exist_ok=True)
+        path = os.path.join(VERIF, 'evidence', 'replay', '%s_%s_%s_%d.json' % (self.prop, u.name, re.sub(r'\W', '_', q.name), len(self.violations)))
+        json.dump({'property': self.prop, 'unit': u.name, 'query': q.name, 'defs': q.defs + kf_defs, 'vin': [], 'kind': 'existential claim refuted',
+                   'assertion': 'no values exist for which: ' + w, 'native_samples_without_witness': tried,
+                   'how': 'the solver proved the witness unreachable for ALL inputs; %d random native runs agree' % tried}, open(path, 'w'), indent=1)
+        self.say('[%s]   existential claim refuted for all inputs: "%s" (confirmed by %d native samples)' % (self.prop, w, tried))
+        self.violations.append(path)
 
     def _known(self, f):
         u = [x for x in self.units if x.name == f['unit']]
